@@ -1,3 +1,4 @@
+import Ebu.Spec.Flow
 import Ebu.Spec.State
 import Ebu.Proofs.State
 /-!
@@ -41,5 +42,10 @@ theorem apply_error_no_change (m : Mat) (e : Ev) (h : (m.apply e).2 = true) :
 theorem apply_err_iff (m : Mat) (e : Ev) :
     (m.apply e).2 = !applies m.strict m.registered e :=
   Ebu.State.apply_err_iff m e
+
+/-! ### obligations on the control flow of the CURRENT source (`Ebu/Generated/Flow.lean`, regenerated from /repo on every run) -/
+
+/-- OBLIGATION: `Apply` decodes first; an error of `applyChange` returns before `lastOffset` is written; a collection decodes the value before it touches its store -/
+theorem flow_decode_before_mutation : Ebu.Flow.materializerShape = true := by decide +kernel
 
 end Ebu.Props.C19
